@@ -3,7 +3,7 @@ from collections import Counter
 from ..run import Prop
 from .. import gen, gen_relgrammar as G, gen_relwrap as W, core
 from ..core import rec_fields, unhex, hexs
-from ..gen_sat import has_big_run
+from ..gen_sat import has_big_run, i32_pair_in_text
 
 CLS_I32 = "c12-debversion-i32-digit-run"
 
@@ -276,15 +276,18 @@ class C13(Prop):
         if impl == "ERR":
             return "the control file is rejected"
         if impl == "PANIC":
+            # a field outside C13's quantifier ("!": not a well-formed relationship field) may still make the relations code
+            # panic (an operator that is none of the five: C12's / C07's recorded class); since /repo c9b03b8 an UNPARSABLE
+            # field is left as it is, which the model mirrors (correspondence)
             return None if bad else "Control::wrap_and_sort PANIC on well-formed relationship fields"
-        if bad:
-            return "Control::wrap_and_sort accepted an unparsable relationship field"
         r = rec_fields(impl)
         t1 = unhex(r["t1"])
         if r.get("t2") != r["t1"]:
             return "a second Control::wrap_and_sort changes the text"
         lines = t1.split("\n")
         for name, enc in encs:
+            if enc == "!":
+                continue      # an unparsable value: kept as written (C07's clause), nothing to compare here
             f = G.decode(enc.replace("+", " "))
             want = W.expected_text(f)
             got = [l for l in lines if l.startswith(name + ":")]
@@ -303,8 +306,10 @@ class C13(Prop):
     def known_class(self, stream, fields, impl, model, why):
         # debversion 0.4.4 panics when it compares a digit run above i32::MAX; which pairs a sort
         # compares is the sorting algorithm's business, so model and implementation may differ there
+        # -- narrowed to what the class says: two alternatives with the same name and operator (impl Ord
+        # for Relation compares versions only then) whose version comparison reaches such a run
         text = unhex(fields[0])
-        if ("PANIC" in impl or "PANIC" in (model or "") or "PANIC" in (why or "")) and has_big_run(text):
+        if ("PANIC" in impl or "PANIC" in (model or "") or "PANIC" in (why or "")) and i32_pair_in_text(text):
             return CLS_I32
         return None
 
